@@ -1,20 +1,17 @@
 /* Specification vocabulary for src/utils/bt_encode.c (C12): bencode decoder and dictionary lookup.
  *
- * STATUS: NO JOB OF THIS UNIT IS REGISTERED (see obligations/C12.d/bt_encode.json, not_covered).
- * The harness harness/C12/bt_decode.c and this file are kept for the next attempt:
- *   - symbolic execution of bt_en_decode does not finish within 20-40 min even for 3..6 input
- *     bytes: six recursive call sites per level, the recursive bt_en_free on every error path and
- *     the 64-entry pre-allocated item arrays (realloc_items) that are re-allocated at the end;
- *     --dfcc --enforce-contract-rec (one level, recursion replaced by contract) needs > 512
- *     objects and > 20 GB;
+ * STATUS: registered are the modular one-level jobs bt_encode.level.* (harness/C12/bt_level.c: the
+ * real body of bt_en_decode against its level contract, recursive calls replaced by that contract).
+ * NOT registered: the whole-recursion harness harness/C12/bt_decode.c and the tree predicate
+ * vf_bt_wf below (kept for a later attempt):
+ *   - symbolic execution of the full recursion does not finish within 20-40 min even for 3..6
+ *     input bytes (six recursive call sites per level, recursive bt_en_free on every error path,
+ *     64-entry pre-allocated item arrays); --dfcc --enforce-contract-rec needs > 20 GB;
  *   - CBMC 6.11 loses a pointer that is stored in a non-first member of the `val` union of
  *     bt_en_node_t and then dereferenced (node->val.d[i].key, node->val.l[i]): the access goes to
- *     `invalid_object`, so every walk over a decoded tree (bt_en_free, bt_dict_find, vf_bt_wf
- *     below) raises false alarms.  Reproducer: struct S { union { uint8_t *s; struct D *d; } val; };
+ *     `invalid_object`, so every walk over a decoded tree (bt_en_free, bt_dict_find, vf_bt_wf)
+ *     raises false alarms.  Reproducer: struct S { union { uint8_t *s; struct D *d; } val; };
  *     p->val.d = arr; p->val.d[0].key = &x; assert(arr[0].key == &x) fails.
- * The defects of bt_en_decode listed in proposed_fixes/bt_encode-decode-bounds.diff were found by
- * reading the code against this specification and are confirmed by the native ASan/UBSan
- * program proposed_fixes/bt_encode-decode-bounds-demo.c.
  *
  * bt_en_decode is recursive and builds a heap tree; its "contract" is stated as an executable
  * well-formedness predicate over the returned tree (vf_bt_wf below) that the bounded plain
